@@ -162,7 +162,9 @@ def fixed_programs():
         return M.program(name, M.if_([(pred, R0)], R1), salt=salt, splitters=splitters)
 
     envs = [{"x": (1, 2), "y": 1, "a": 1, "b": 2, "c": 3, "uid": "u1", "index": 1, "order_id": 2},
-            {"x": 7, "y": (1, (2, 3)), "a": 2, "b": 3, "c": 4, "uid": "u2", "index": 0, "order_id": 0}]
+            {"x": 7, "y": (1, (2, 3)), "a": 2, "b": 3, "c": 4, "uid": "u2", "index": 0, "order_id": 0},
+            {"x": 0.5, "y": 0.5, "a": 0.5, "b": 0.5, "c": 0.5, "uid": "u3", "index": 0.5, "order_id": 0.5},
+            {"x": 0.05, "y": 0.05, "a": 0, "b": 0, "c": 0, "uid": "u4", "index": 0, "order_id": 0}]
     shapes = [
         # identifiers that occur ONLY inside a nested tuple / only inside a tuple
         prog(M.cmp_(I("x"), "in", T([T([I("a"), L("1")]), T([I("b"), L("2")])]))),
@@ -176,6 +178,10 @@ def fixed_programs():
         # the experiment's own name as the only field, inside a tuple
         prog(M.cmp_(L("1"), "in", T([I("exp"), L("2")]))),
         prog(M.cmp_(I("y"), "in", I("x")), splitters=["y"]),
+        # numeric literals a formatter might be tempted to rewrite
+        M.program("exp", M.if_([(M.cmp_(I("y"), "==", M.lit_float("0.5")), M.ret([(M.lit_float("0.5"), "0.5"), (M.lit_float("1.50"), "0.25")])),
+                                (M.cmp_(I("y"), "<", M.lit_float("0.10")), M.ret([(M.lit_int("007"), "1"), (M.lit_float("1.0"), "1.0")]))],
+                               M.ret([(M.lit_float("0.5", True), "1")])), splitters=["uid"]),
     ]
     # salts / strings that are hostile to naive embedding, with and without splitters
     hostile = []
@@ -193,7 +199,8 @@ def fixed_programs():
     for p in shapes:
         fields = M.all_fields(p)
         ins = []
-        for e in envs:
+        ordered = any(c["op"] in ("<", ">", "<=", ">=") for pr in M.preds(p["body"]) for c in M.cmps(pr))
+        for e in (envs[2:] + [dict(envs[0], y=1)] if ordered else envs):
             env = {f: e.get(f, 1) for f in fields}
             if "exp" in fields:
                 env["exp"] = 1
